@@ -22,7 +22,7 @@ fn spaces(id: &str, tier: Tier) -> Vec<Box<dyn Space>> {
             v.push(Box::new(ms_a_large(1)));
             v.push(Box::new(ms_b(if t { 4 } else { 3 }, true)));
             v.push(Box::new(ms_c()));
-            v.push(Box::new(ms_e(t)));
+            v.push(Box::new(ms_e(if t { 2 } else { 1 })));
             if t {
                 v.push(Box::new(ms_a(3, false)));
                 v.push(Box::new(ms_b(5, false)));
